@@ -18,6 +18,8 @@ CHECKS = {
  "C08": ("capsim", "exploration", "seeded search over (helper, exposed-interface subset, start state, fault position): each package helper on a FaultFS exposing a drawn subset of exactly the interfaces its dispatch inspects (70 generated wrapper types over real mem.FS / os.FS), against a twin exposing all of them; in half of the trials one primitive call inside the fallback path fails", "samples subsets and fault positions (all 2^k subsets per helper are reachable by the draw, coverage is counted, not enumerated); what the caller does with a handle returned by OpenFile/Create is not part of the helper", TECH_FAULT),
  "C10": ("cachesim", "exploration", "seeded search over source trees (sizes around the copy buffer), RetainData policies, cache-store kinds (full mem.FS / only OpenFile+Mkdir), copy-buffer knob values and access sequences on cache.ReadOnlyFS, mirrored call by call on handles of the source; plus the source call log for 'not read again'", "fault-free configuration of the C11 simulator (legal odd read shapes only); Seek is compared on regular files only; page order of directory reads is not compared, page sizes and the final multiset are; mtimes are not compared", TECH_SEQ + " with buggified read shapes and a knob for the copy buffer"),
  "C11": ("cachesim", "exploration", "fault mode: seeded search over the position of one fault among all source and cache-store calls of a fill (incl. writes accepted in part and a close that loses the tail), followed by fault-free re-opens; concurrent mode: 2-4 first opens of one name as tasks under the seeded scheduler with the copy paused at every chunk, gates at the per-path lock; judged: error reported, complete-or-error afterwards, never two copies of one name in progress, no deadlock", "samples fault positions and schedules; closing read handles and the final rewind of the source handle are not required to fail the open", TECH_SCHED),
+ "C12": ("tarsim", "exploration", "seeded search over well-formed archives (entry order, spellings, permission bits, sizes around knob buffer thresholds, pool sizes 1-3, escaping names), destination kinds and schedules of tar.ReaderFS's own goroutines (reader, one background writer per directory entry and small file, join goroutine), which run as tasks of the seeded scheduler; after Done() the tar FS and the destination are compared with a 25-line logical-tree spec", "buffer sizes are knobs (small 512..2048, big 1024..4096) so that the big-file foreground path and pool exhaustion are reached with kilobyte archives; the shipped 150 KiB / 4 MiB constants are not exercised by this check; modes of implicit ancestor directories are not judged", TECH_SCHED),
+ "C13": ("tarsim", "exploration", "seeded search over archives, chunked delivery, 1-4 opener tasks with drawn delays, one fault (truncation at a 512-byte block, reader error at an offset, flipped header byte, cancellation after a drawn number of steps, failing destination create/write/close/mkdir/chmod) and schedules; judged: a successful Open delivers exactly the entry's bytes, every Open and Done() has returned at quiescence (deadlock verdict otherwise); the unexported pubsub and buffer pool are also driven directly through an overlay export shim", "an io.Reader that never returns is outside the property (the simulated stream always answers); flipped data bytes are not generated (tar has no data checksum); gates after cancel()/Done() calls let the scheduler run the released waiters before the releaser continues", TECH_SCHED),
  "C14": ("storesim", "exploration", "seeded search over operation histories and single store faults (position over all store call indices; kinds: Get, rejected Set, Set applied but reported failed, lazy Data(), lazy ReadDirNames(), Transaction()) on keyvalue.FS over a plain SimStore (serial fallback) and over the real in-memory TransactionStore behind a fault-injecting wrapper, with a fault-free twin in lockstep", "one fault per trial (the property speaks of a single failing call); after the fault the twin is no longer compared, the look-up-agrees-with-store invariant keeps running; runs as a single scheduler task with lock gates so a store left locked is a deadlock verdict", TECH_FAULT),
  "C15": ("concsim", "exploration", "seeded search over small concurrent programs (2-3 tasks x 1-3 operations, three families) and over their interleavings on the real mem.FS: tasks are real goroutines parked at gates (transaction open = lock gate on the real store mutex, every Get/Set/Commit/Abort, every lazy record getter, every blob and FS-level mutex acquisition); judged against the set of outcomes of all program-order-preserving sequential executions of the same code; plus an auxiliary free-running pass under the race detector, which is runtime monitoring and labelled so", "operations = single methods of the FS or of a handle (helpers that fall back to several primitive calls are sequences of operations); serialisability, not real-time linearizability, as the statement says; interleavings are explored at gate granularity: two plain memory accesses racing between gates are only visible to the auxiliary -race pass; sampled schedules (3 policies), not all", TECH_SCHED + "; oracle = sequential re-execution of the same code in every program-order-preserving order"),
  "C16": ("fsdiff/listing", "exploration", "seeded search over directory sizes, stacks and page-size sequences; by-name listing and paged handle reads judged for completeness, duplicates, order, Info-vs-Stat agreement and EOF rules", "directories are not mutated between pages; mem listing order permuted from the choice stream", TECH_SEQ),
